@@ -14,29 +14,30 @@ Theorem C04_rotate_unit : forall dir rot : vec3 R, unitv dir -> unitv rot ->
 Proof. exact rotate_unit. Qed.
 Print Assumptions C04_rotate_unit.
 
-(** repaired code (commit 176dbfb): for every unit rot, off-axis or axis-aligned *)
+(** the tree's rotate ([Base.Vec3.rotate]): only under the branch hypothesis *)
 Theorem C04_rotate_preserves_polar : forall dir rot : vec3 R, unitv dir -> unitv rot ->
+  (5 / 1000 <= sintheta_of rot \/ 0 <= vy rot) ->
   dot (rotate (min_acc (T:=R)) dir rot) rot = vz dir.
 Proof. exact rotate_preserves_polar. Qed.
 Print Assumptions C04_rotate_preserves_polar.
 
-(** pinned code: only under the branch hypothesis *)
-Theorem C04_rotate_old_preserves_polar : forall dir rot : vec3 R, unitv dir -> unitv rot ->
-  (5 / 1000 <= sintheta_of rot \/ 0 <= vy rot) ->
-  dot (rotate_old (min_acc (T:=R)) dir rot) rot = vz dir.
-Proof. exact rotate_old_preserves_polar. Qed.
-Print Assumptions C04_rotate_old_preserves_polar.
+(** the tree's rotate is the copy [rotate_old] the _refuted statement is about *)
+Theorem C04_tree_rotate_is_rotate_old : forall m (d r : vec3 R), rotate m d r = rotate_old m d r.
+Proof. intros m d r. unfold rotate, rotate_old. rewrite base_rotate_old. reflexivity. Qed.
+Print Assumptions C04_tree_rotate_is_rotate_old.
 
-(** pinned code ([rotate_old], the copy of ArrayUtils.hh::rotate as first modelled):
-    in the branch 0 < sin(theta) < 0.005 the sign of rot[Y] is dropped *)
-Theorem C04_rotate_old_preserves_polar_small_branch_refuted :
+(** the tree's code ([rotate_old] = [Base.Vec3.rotate], see C04_tree_rotate_is_rotate_old):
+    in the branch 0 < sin(theta) < 0.005 the sign of rot[Y] is dropped.  KNOWN FINDING
+    rotate-small-sintheta-branch-drops-sign-of-y *)
+Theorem C04_rotate_preserves_polar_small_branch_refuted :
   exists dir rot : vec3 R, unitv dir /\ unitv rot /\
     0 < sintheta_of rot < 5 / 1000 /\ vy rot < 0 /\
-    dot (rotate_old (min_acc (T:=R)) dir rot) rot <> vz dir.
-Proof. exact rotate_old_preserves_polar_small_branch_refuted. Qed.
-Print Assumptions C04_rotate_old_preserves_polar_small_branch_refuted.
+    dot (rotate (min_acc (T:=R)) dir rot) rot <> vz dir.
+Proof. exact rotate_preserves_polar_small_branch_refuted. Qed.
+Print Assumptions C04_rotate_preserves_polar_small_branch_refuted.
 
-(** repaired formula ([rotate_new]): polar angle preserved for every unit rot *)
+(** CANDIDATE REPAIR, NOT IN THE TREE ([rotate_new]: branch on x^2+y^2 > 0,
+    (cosphi, sinphi) = (x, y)/sqrt(x^2+y^2)): polar angle preserved for every unit rot *)
 Theorem C04_rotate_new_preserves_polar : forall dir rot : vec3 R, unitv dir -> unitv rot ->
   unitv (rotate_new (min_acc (T:=R)) dir rot) /\ dot (rotate_new (min_acc (T:=R)) dir rot) rot = vz dir.
 Proof. intros d r Hd Hr. split; [exact (rotate_new_unit d r Hd Hr) | exact (rotate_new_preserves_polar d r Hd Hr)]. Qed.
@@ -50,7 +51,7 @@ Proof. exact kn_energy_conserved. Qed.
 Print Assumptions C04_kn_energy_conserved.
 
 Theorem C04_kn_momentum_conserved : forall (me : R) (p : kn_params R) a s r a' s' sec,
-  kn_ok me p -> canon s ->
+  kn_ok me p -> canon s -> rot_branch_ok (kn_dir p) ->
   kn_sample p a s = Some ((r, a'), s') -> i_secs r = [sec] -> s_pid sec = PElectron ->
   let pe := sqrt (s_energy sec * (s_energy sec + 2 * me)) in
   let E := kn_energy p in
@@ -98,7 +99,7 @@ Theorem C04_kn_fails_only_on_exhausted_storage : forall (p : kn_params R) a s r 
 Proof. exact kn_fails_only_on_exhausted_storage. Qed.
 Print Assumptions C04_kn_fails_only_on_exhausted_storage.
 
-(** ** e+ annihilation (fixed = false: pinned source, true: repaired) *)
+(** ** e+ annihilation ([fixed = false]: the tree's code; [fixed = true]: CANDIDATE REPAIR, NOT IN THE TREE) *)
 Theorem C04_eplusgg_energy_conserved : forall fixed (p : ep_params R) a s r a' s',
   ep_sample fixed p a s = Some ((r, a'), s') -> i_action r <> Failed ->
   i_action r = Absorbed /\ i_deposit r = 0 /\
@@ -107,7 +108,7 @@ Proof. exact ep_energy_conserved. Qed.
 Print Assumptions C04_eplusgg_energy_conserved.
 
 Theorem C04_eplusgg_outputs_valid : forall fixed (p : ep_params R) a s r a' s',
-  ep_ok p -> 0 < ep_energy p -> canon s ->
+  ep_ok p -> 0 < ep_energy p -> canon s -> (fixed = false \/ rot_branch_ok (ep_dir p)) ->
   ep_sample fixed p a s = Some ((r, a'), s') -> i_action r <> Failed ->
   exists g0 g1, i_secs r = [g0; g1] /\ s_pid g0 = PGamma /\ s_pid g1 = PGamma /\
     0 < s_energy g0 /\ 0 < s_energy g1 /\ unitv (s_dir g0) /\ unitv (s_dir g1).
@@ -121,17 +122,19 @@ Theorem C04_eplusgg_cost_in_range : forall m E : R, 0 < m -> 0 < E -> forall eps
 Proof. exact ep_cost_range. Qed.
 Print Assumptions C04_eplusgg_cost_in_range.
 
-Theorem C04_eplusgg_momentum_conserved : forall (p : ep_params R) a s r a' s' g0 g1,
-  ep_ok p -> 0 < ep_energy p -> canon s ->
+(** candidate repair only (fixed = true), not in the tree *)
+Theorem C04_eplusgg_repaired_momentum_conserved : forall (p : ep_params R) a s r a' s' g0 g1,
+  ep_ok p -> 0 < ep_energy p -> canon s -> rot_branch_ok (ep_dir p) ->
   ep_sample true p a s = Some ((r, a'), s') -> i_secs r = [g0; g1] ->
   let pin := sqrt (ep_energy p * (ep_energy p + 2 * ep_me p)) in
   vx (ep_dir p) * pin = vx (s_dir g0) * s_energy g0 + vx (s_dir g1) * s_energy g1 /\
   vy (ep_dir p) * pin = vy (s_dir g0) * s_energy g0 + vy (s_dir g1) * s_energy g1 /\
   vz (ep_dir p) * pin = vz (s_dir g0) * s_energy g0 + vz (s_dir g1) * s_energy g1.
 Proof. exact ep_momentum_conserved. Qed.
-Print Assumptions C04_eplusgg_momentum_conserved.
+Print Assumptions C04_eplusgg_repaired_momentum_conserved.
 
-Theorem C04_eplusgg_momentum_old_refuted :
+(** the tree's code (fixed = false): KNOWN FINDING eplusgg-second-gamma-direction-ignores-first-gamma *)
+Theorem C04_eplusgg_momentum_refuted :
   exists (p : ep_params R) (epsil u : R) r,
     ep_ok p /\ 0 < ep_energy p /\ canonical u /\
     1 / 2 - ep_sqgrate (ep_tau p) <= epsil <= 1 / 2 + ep_sqgrate (ep_tau p) /\
@@ -140,7 +143,7 @@ Theorem C04_eplusgg_momentum_old_refuted :
       vz (ep_dir p) * sqrt (ep_energy p * (ep_energy p + 2 * ep_me p))
       <> vz (s_dir g0) * s_energy g0 + vz (s_dir g1) * s_energy g1.
 Proof. exact ep_momentum_old_refuted. Qed.
-Print Assumptions C04_eplusgg_momentum_old_refuted.
+Print Assumptions C04_eplusgg_momentum_refuted.
 
 Theorem C04_eplusgg_failure_is_atomic : forall fixed (p : ep_params R) (a : alloc) s,
   allocate 2 a = None -> ep_sample fixed p a s = Some ((from_failure, a), s).
@@ -156,7 +159,7 @@ Print Assumptions C04_ioni_energy_conserved.
 
 Theorem C04_ioni_momentum_conserved : forall (e_inc m_inc t_e m_e : R) dir s r s' sec,
   0 < m_inc -> 0 < m_e -> 0 < e_inc -> 0 < t_e < tmax_R m_inc e_inc m_e -> t_e < e_inc ->
-  unitv dir ->
+  unitv dir -> rot_branch_ok dir ->
   ioni_final e_inc dir (sqrt (e_inc * e_inc + 2 * m_inc * e_inc)) m_inc t_e m_e s = Some (r, s') ->
   i_secs r = [sec] ->
   let p_inc := sqrt (e_inc * e_inc + 2 * m_inc * e_inc) in
